@@ -22,10 +22,18 @@
     reset <a>                                          reset / do_reset
     clear t=<tape>                                     WengertList::clear
     derivs <a> wrt=<b>,<c>                             derivatives / derivatives_for + at_tensor…
+    elem <z> <a> <i,j,…> via=<access>.<get|try>.<val|ref>   one element as a `Record`
+                                                       (`index_by`/`index`/owned/`&mut` TensorAccess,
+                                                       matrix `get_as_record`), kept as the
+                                                       0-dimensional container `From<Record>` makes
+    scalar <y> <z> via=<val|ref>.<val|ref>             0-dimensional tensor → `Record` → tensor
+    swap <a> <i,j,…> <k,l,…>                           two elements exchanged through
+                                                       `get_reference_mut` / `try_get_reference_mut`
+    layout <a>                                         `data_layout` of the container as a source
 
   An operand is `name` (the owned container itself) or `name/<view>`: `ref` (borrowed),
   `acc.<perm>` (`TensorAccess`, dimension `perm[k]` of the source becomes dimension `k`),
-  `tr.<perm>` (`TensorTranspose`), `rg.<start>+<len>.…` (`TensorRange` / `MatrixRange`),
+  `tr.<perm>` (`TensorTranspose`), `rg.<start>+<len>.…` (`TensorRange` / `MatrixRange`), `rn.<names>` (`rename_view`),
   `rev.<0|1>.…` (`TensorReverse` / `MatrixReverse`).  Assigning operations write through the view.
   `<recfn>`: id | sq | aff | konst | lift.<tape> | half | alt | scale  (the last two use the
   element's row-major position and exist for the `with_index` variants only).
@@ -55,6 +63,7 @@ inductive ViewSpec where
   | tr (perm : List Nat)
   | rg (ranges : List (Nat × Nat))
   | rev (flags : List Bool)
+  | rn (names : List String)
 
 def parseView (s : String) : Option ViewSpec :=
   match s.splitOn "." with
@@ -69,6 +78,7 @@ def parseView (s : String) : Option ViewSpec :=
         | some a, some b => some (a, b)
         | _, _ => none
       | _ => none).map .rg
+  | "rn" :: ns => some (.rn ns)
   | "rev" :: fs =>
     (fs.mapM fun (f : String) => if f = "1" then some true else if f = "0" then some false else none).map .rev
   | _ => none
@@ -113,6 +123,9 @@ def viewOf (shape : Shape String) : ViewSpec → Option (Shape String × List Na
     let vshape := (shape.zip ranges).map fun (d, r) => (d.1, r.2)
     let base := dot (ranges.map (·.1)) strides
     some (vshape, (allIndexes (vshape.map (·.2))).map fun idx => base + dot idx strides)
+  | .rn names =>
+    if names.length != shape.length then none else
+    some ((shape.zip names).map fun (d, n) => (n, d.2), List.range (elements shape))
   | .rev flags =>
     if flags.length != shape.length then none else
     let strides := computeStrides shape
@@ -435,7 +448,9 @@ def stepFromIter (s : CState R) (name : String) (o : Operand R) (rest : List Str
   | some shape =>
     let order := (optArg "order" rest).getD "rm"
     let f0 := ((optArg "fn" rest).bind (recFn (R := R))).getD fun _ r w => (r, w)
-    let f : Nat → Rec R → World R → Rec R × World R := fun _ => f0 0
+    -- `with_index`, `.into()`, `from_with_index`: the element's position is handed to the function
+    let indexed := ["with_index", "into", "from_with_index"].contains ((optArg "via" rest).getD "plain")
+    let f : Nat → Rec R → World R → Rec R × World R := if indexed then f0 else fun _ => f0 0
     let chained : Option (Operand R) := (optArg "chain" rest).bind (resolve s)
     if (optArg "chain" rest).isSome && chained.isNone then (s, "bad-ref") else
     let take := (optArg "take" rest).bind String.toNat?
@@ -551,6 +566,47 @@ def stepDerivs (s : CState R) (out : Operand R) (wrt : List (Operand R)) (via : 
   | .panic k, _ => s!"panic({k}) MODEL-SPEC-DISAGREE"
   | _, _ => "MODEL-SPEC-DISAGREE"
 
+def showRec (r : Rec R) : String :=
+  s!"v={Elem.render r.number} const={if r.history.isNone then 1 else 0}"
+
+/-- `elem`: one element as a record, kept as a 0-dimensional container -/
+def stepElem (s : CState R) (name : String) (o : Operand R) (idx : List Nat) (via : String) :
+    CState R × String :=
+  let c := o.cont
+  let pos := Cont.position o.vshape idx
+  let tryForm := (via.splitOn ".").contains "try"
+  let specRec : Option (Rec R) := pos.bind fun k => o.recs[k]?
+  match c.tryGetAsRecord pos, specRec with
+  | none, none => (s, if tryForm then "none" else "panic(explicit)")
+  | some r, some sr =>
+    let ok := r.number == sr.number && r.index == sr.index && histEq r.history sr.history
+    let z := Cont.ofRecord r
+    let e : Entry R := { isMatrix := false, cont := z, recs := [sr] }
+    (bind s name e, flag ok (showRec sr ++ " scalar=ok") ++ s!" ## idx={r.index}")
+  | _, _ => (s, "MODEL-SPEC-DISAGREE")
+
+/-- `scalar`: 0-dimensional tensor → record → 0-dimensional tensor -/
+def stepScalar (s : CState R) (name : String) (o : Operand R) : CState R × String :=
+  match o.cont.toRecord, o.recs with
+  | .ok r, [sr] =>
+    let e : Entry R := { isMatrix := false, cont := Cont.ofRecord r, recs := [sr] }
+    (bind s name e, answerEntry e)
+  | .panic k, _ => (s, s!"panic({k})")
+  | _, _ => (s, "MODEL-SPEC-DISAGREE")
+
+def stepSwap (s : CState R) (o : Operand R) (i j : List Nat) : CState R × String :=
+  match Cont.position o.vshape i, Cont.position o.vshape j with
+  | some pi, some pj =>
+    let c' := o.cont.swapElems pi pj
+    let recs' := listSwap o.recs pi pj
+    let (s', e) := storeAssigned s o c' recs'
+    (s', answerEntry e)
+  | _, _ => (s, "none")
+
+def stepLayout (o : Operand R) : String :=
+  if o.entry.isMatrix then "ok ## layout=row_major"
+  else s!"ok ## layout=linear:{",".intercalate (o.entry.cont.shape.map (·.1))}"
+
 def stepC (s : CState R) (toks : List String) : CState R × String :=
   let get (tok : String) := resolve s tok
   match toks with
@@ -568,6 +624,24 @@ def stepC (s : CState R) (toks : List String) : CState R × String :=
     match get a, ((optArg "wrt" rest).map splitComma).getD [] |>.mapM get with
     | some o, some wrt => (s, stepDerivs s o wrt ((optArg "via" rest).getD "all"))
     | _, _ => (s, "bad-ref")
+  | "elem" :: name :: a :: idx :: rest =>
+    match get a, parseNatList idx with
+    | some o, some idx => stepElem s name o idx ((optArg "via" rest).getD "index_by.get.val")
+    | none, _ => (s, "bad-ref")
+    | _, none => (s, "bad-op")
+  | "scalar" :: name :: a :: _ =>
+    match get a with
+    | some o => stepScalar s name o
+    | none => (s, "bad-ref")
+  | "swap" :: a :: i :: j :: _ =>
+    match get a, parseNatList i, parseNatList j with
+    | some o, some i, some j => stepSwap s o i j
+    | none, _, _ => (s, "bad-ref")
+    | _, _, _ => (s, "bad-op")
+  | "layout" :: a :: _ =>
+    match get a with
+    | some o => (s, stepLayout o)
+    | none => (s, "bad-ref")
   | "uassign" :: a :: rest =>
     match get a, parseUOp (R := R) "unary" none rest with
     | some o, some op => stepUAssign s o op
